@@ -34,6 +34,11 @@ func returnsSentinel(fn *ssa.Function, name string) bool {
 // errChain computes the functions through which an error originating in
 // origins travels upwards, checking every call site on the way (E7).
 func errChain(c *an.Ctx, rule string, origins []*ssa.Function, scope func(*ssa.Function) bool, exempt map[string]string) map[*ssa.Function]bool {
+	return errChainX(c, rule, origins, scope, exempt, nil)
+}
+
+// errChainX is errChain with exemptions decided by role: exemptFn(caller, callee) gives the reason a call site is outside the chain.
+func errChainX(c *an.Ctx, rule string, origins []*ssa.Function, scope func(*ssa.Function) bool, exempt map[string]string, exemptFn func(caller, callee *ssa.Function) string) map[*ssa.Function]bool {
 	p := c.P
 	chain := map[*ssa.Function]bool{}
 	var work []*ssa.Function
@@ -55,6 +60,12 @@ func errChain(c *an.Ctx, rule string, origins []*ssa.Function, scope func(*ssa.F
 			if why, ok := exempt[key]; ok {
 				c.Note(rule, key, site.Pos(), "exempt: %s", why)
 				continue
+			}
+			if exemptFn != nil {
+				if why := exemptFn(caller, f); why != "" {
+					c.Note(rule, key, site.Pos(), "exempt: %s", why)
+					continue
+				}
 			}
 			fate := p.ErrFate(site, noReturn)
 			c.Site(rule, key+" "+fate.Kind)
